@@ -38,8 +38,8 @@ def _swap(st):
         t0, t1 = st.targets[0].elts
         v0, v1 = st.value.elts
         if all(isinstance(x, ast.Subscript) and isinstance(x.value, ast.Name) for x in (t0, t1, v0, v1)):
-            if dump(t0) == dump(v1) and dump(t1) == dump(v0) and t0.value.id == t1.value.id:
-                return t0.value.id, dump(t0.slice), dump(t1.slice)
+            if dump(t0) == dump(v1) and dump(t1) == dump(v0):
+                return t0.value.id if t0.value.id == t1.value.id else "%s|%s" % (t0.value.id, t1.value.id), dump(t0.slice), dump(t1.slice)
     return None
 
 
